@@ -474,8 +474,10 @@ def _resolve_conservation(ck):
                 sep_first += 1
             elif recv == V(jname) and name == "append" and args:
                 x = args[0]
-                uses = [s for s in T.subterms(x) if s[0] == "app" and s[1].endswith("AlignmentResultRow.resolve")]
-                both = uses and {uses[0][2], list(dict(uses[0][3]).values())[0]} in (
+                uses = [(s[2], list(dict(s[3]).values())[0]) for s in T.subterms(x)
+                        if s[0] == "app" and s[1].endswith("AlignmentResultRow.resolve") and s[3]]
+                uses += [(s[1], s[3][0]) for s in T.subterms(x) if s[0] == "mcall" and s[2] == "resolve" and len(s[3]) == 1]
+                both = uses and {uses[0][0], uses[0][1]} in (
                     {T.mk_idx(G, C(0)), T.mk_idx(G, C(1))}, {T.mk_idx(Gl, C(0)), T.mk_idx(Gl, C(1))})
                 if both:
                     joined += 1
@@ -503,7 +505,8 @@ def _resolve_conservation(ck):
             n_join += 1
             def conj(f):
                 return list(f[1]) if f[0] == "and" else [f]
-            elig = any(tv and any(x[0] == "app" and x[1].endswith("check_overlap") for x in conj(f)) for f, tv in pa.facts.items())
+            elig = any(tv and any((x[0] == "app" and x[1].endswith("check_overlap")) or (x[0] == "mcall" and x[2] == "check_overlap")
+                                  for x in conj(f)) for f, tv in pa.facts.items())
             ck.judge(elig, "C08.5", "AlignmentResults.resolve:joined", w,
                      "a joined row is appended only when check_overlap accepted the pair", found=desc,
                      required="check_overlap(...) true on the path")
@@ -537,8 +540,21 @@ def _joined_row(ck):
             continue
         v = pa.value
         w = where(fn, pa.node)
+        if v in (V(fn.self_name), other):
+            stores = [e for e in pa.events if e.kind == "setattr"]
+            ck.violation("C08.6", "AlignmentResultRow.resolve:new-record", w,
+                         "the join hands back one of its two parts, changed in place, instead of a new record: the first-/second-pass "
+                         "record that is written afterwards (mode 'all') is no longer the single-pass record",
+                         found=f"returns {T.show(v)} after {len(stores)} attribute store(s)",
+                         required="AlignmentResultRow.create(...) - a new row; the parts stay as they are")
+            n += 1
+            continue
         if v[0] != "app" or not v[1].endswith("AlignmentResultRow.create"):
             raise AnalysisError(f"{w}: joined row is not built by AlignmentResultRow.create: {T.show(v)[:160]}")
+        stores = [e for e in pa.events if e.kind == "setattr" and e.extra["target"][1] in (V(fn.self_name), other)]
+        ck.judge(not stores, "C08.6", "AlignmentResultRow.resolve:parts-untouched", w,
+                 "joining does not modify the two parts (they are reported on their own in other files)",
+                 found="; ".join(T.show(e.extra["target"]) for e in stores[:4]) or "no store to self / the other row")
         n += 1
         a = dict(v[3])
         for k in ("queryId", "referenceId", "queryLength", "referenceLength"):
@@ -555,6 +571,15 @@ def _joined_row(ck):
                          "segments of the joined row do not come from conflict resolution of the parts",
                          found=T.show(segs)[:200] if segs else "None", required="pair.resolveConflict() of the two first segments")
             continue
+        # exactly the two results of the resolution (minus empty ones) make up the joined row
+        inner_list = dict(segs[2]).get("segments") if segs[0] == "new" and segs[2] else (list(dict(segs[3]).values())[0] if segs[0] == "app" and segs[3] else None)
+        if inner_list is not None and inner_list[0] == "comp" and len(inner_list[3]) == 1:
+            src = inner_list[3][0][0]
+            extra_src = src[0] == "concat" or (src[0] in ("list", "tuple") and len(src[1]) != 2)
+            ck.judge(not extra_src, "C08.6", "AlignmentResultRow.resolve:only-resolved", w,
+                     "the joined row consists of the two segments that went through conflict resolution - nothing is appended that "
+                     "was not checked against them (its pairs would be out of order or shared)",
+                     found=T.show(src)[:200], required="[seg1, seg2] of pair.resolveConflict()")
         pair = resolves[0][1] if resolves[0][0] == "mcall" else resolves[0][2]
         if not (pair[0] == "app" and pair[1].endswith(".checkForConflicts")):
             raise AnalysisError(f"{w}: conflict pair is not built by checkForConflicts: {T.show(pair)[:160]}")
